@@ -314,6 +314,13 @@ let clauses_adapter h (impl : string) : (string * bool) list =
           ("cost_kept", deleted ops = deleted inp && inserted ops = inserted inp) ]
         @ (if twice then [ ("twice_same", h1 = h2) ] else [])
         @ (if stack = "mutref" then [ ("forwards_unchanged", cs = script) ] else [])
+        @ (if stack = "norep" then
+             (* the default replace body: delete then insert, whatever the lengths *)
+             let expand =
+               List.concat_map (function CRep (o, ol, n, nl) -> [ CDel (o, ol, n); CIns (o, n, nl) ] | c -> [ c ]) script
+             in
+             [ ("forwards_unchanged", cs = expand) ]
+           else [])
         @ (if stack = "nofinish" then [ ("forwards_unchanged", cs = List.filter (fun c -> c <> CFin) script) ] else [])
         @ (if stack = "compact_replace" then [ ("normal", check_normal orc.o_on ops) ] else [])
         @ if stack = "replace" then [ ("ops_exact", check_ops_exact orc.o_on (n os) (n oe) (n ns) (n ne) ops) ] else []
